@@ -119,11 +119,13 @@ def observe(d, name, groups, jobs=8, fuel=20_000_000):
     return out
 
 
-def judge(d, name, rows, budget, chunks=1, workers=8, timeout=2400, profile=False):
-    """TLC on MIRTrace.tla; returns ({id: merged verdict}, TlcResult)"""
+def judge(d, name, rows, budget, chunks=1, workers=8, timeout=2400, profile=False, cfg="MIRTrace.cfg"):
+    """TLC on MIRTrace.tla; returns ({id: merged verdict}, TlcResult).  The bulk run (MIRTrace.cfg) reports the
+    verdicts as data; MIRTraceVerdict.cfg checks invariant C02 (used on single programs: TLC reconstructs an
+    error trace per violation, which re-reads the whole trace file)."""
     tr = os.path.join(d, f"{name}-mirtrace.ndjson")
     write_ndjson(tr, rows)
-    res = tlc("MIRTrace", "MIRTrace.cfg", env={"TRACE": tr, "NROWS": len(rows), "BUDGET": budget, "CHUNKS": chunks, "PROFILE": "1" if profile else "0"},
+    res = tlc("MIRTrace", cfg, env={"TRACE": tr, "NROWS": len(rows), "BUDGET": budget, "CHUNKS": chunks, "PROFILE": "1" if profile else "0"},
               workers=workers, timeout=timeout, tag=f"c02mir-{name}", extra=["-continue"], xmx="12g")
     parts = {}
     try:
@@ -248,6 +250,12 @@ def report(tally):
         log(f"MODEL-DRIFT property={PID} {row['origin']}: the {k} run of the raw build differs from MIR.tla's run of the raw MIR "
             f"(specified: {v['refLines']} lines, end {v['refEnd']}){note}")
     for row, v, prog in tally.violations[:8]:
+        # the verdict proper: invariant C02 of MIRTrace.tla on this program alone
+        one = dict(row, id=0)
+        _, res = judge(outdir(PID), "mirverdict", [one], one.get("budget", 3_000_000), chunks=1, workers=2, cfg="MIRTraceVerdict.cfg")
+        if res.violated != "C02":
+            log(res.out[-3000:])
+            tool_failure(f"MIRTrace.tla reported a violation for {row['origin']} in the bulk run but invariant C02 holds on the program alone")
         first = next(b for b in v["builds"] if b["b"] == v["first"])
         case = {"source": row["origin"], "program": {k: prog[k] for k in ("origin", "entry", "sources") if k in prog},
                 "with_std": prog.get("with_std", True), "builds": row.get("order", [])}
